@@ -25,8 +25,9 @@ _COUNTER = [0]
 def reset_process_caches():
     """lru_caches whose results depend on cwd / earlier runs are reset between independent cases."""
     from xsdata.utils import package
-    for fn in (package.package_path, package.module_path, package.module_name):
-        fn.cache_clear()
+    for fn in vars(package).values():
+        if hasattr(fn, "cache_clear"):
+            fn.cache_clear()
 
 
 class Generated:
@@ -111,7 +112,8 @@ def new_package(prefix="vg") -> str:
 
 
 def generate(sources: dict[str, str | bytes], uris: list[str] | None = None, package: str | None = None, options: dict | None = None,
-             conventions: dict | None = None, config_obj=None, reset_caches: bool = True, keep_cwd: str | None = None) -> Generated:
+             conventions: dict | None = None, config_obj=None, reset_caches: bool = True, keep_cwd: str | None = None,
+             cache: str | None = None, run_cwd: str | None = None) -> Generated:
     """Write `sources` (relative path -> text) into a scratch dir, run ResourceTransformer on `uris`
     (default: every source file, sorted) with GeneratorConfig modified by `options` (dotted keys of
     GeneratorOutput, e.g. {"format.frozen": True, "structure_style": StructureStyle.CLUSTERS}).
@@ -138,7 +140,8 @@ def generate(sources: dict[str, str | bytes], uris: list[str] | None = None, pac
                 p.write_bytes(text)
             else:
                 p.write_text(text, encoding="utf-8")
-        os.chdir(workdir)
+        # run_cwd: the process stands in another directory than the sources (output is written there)
+        os.chdir(run_cwd or workdir)
         if reset_caches:
             reset_process_caches()
         config = config_obj or GeneratorConfig()
@@ -153,20 +156,26 @@ def generate(sources: dict[str, str | bytes], uris: list[str] | None = None, pac
         else:
             uris = [Path(workdir, u).as_uri() if "://" not in u else u for u in uris]
         transformer = ResourceTransformer(config=config)
+        if cache == "fresh":
+            # the cache of parsed classes lives in the temp dir under a name derived from the uris: start without it
+            ResourceTransformer.get_cache_file(uris).unlink(missing_ok=True)
         with warnings.catch_warnings():
             warnings.simplefilter("ignore")
             try:
-                transformer.process(uris)
+                if cache:
+                    transformer.process(uris, cache=True)
+                else:
+                    transformer.process(uris)
             except BaseException as e:  # noqa
                 if isinstance(e, (KeyboardInterrupt, SystemExit)):
                     raise
                 error = e
         files = {}
         src_names = {str(Path(r)) for r in sources}
-        for dp, _dn, fn in os.walk(workdir):
+        for dp, _dn, fn in os.walk(run_cwd or workdir):
             for f in fn:
                 full = os.path.join(dp, f)
-                rel = os.path.relpath(full, workdir)
+                rel = os.path.relpath(full, run_cwd or workdir)
                 if rel in src_names or "__pycache__" in rel or not rel.endswith(".py"):
                     continue
                 with open(full, encoding="utf-8") as fh:
@@ -176,8 +185,14 @@ def generate(sources: dict[str, str | bytes], uris: list[str] | None = None, pac
         logger.handlers, logger.propagate = old_handlers, old_prop
         logger.setLevel(old_level)
         # validate_imports prepends cwd on every run
-        sys.path[:] = [p for p in sys.path if p != workdir or p in old_path]
-    return Generated(workdir, package, files, stream.getvalue(), error)
+        sys.path[:] = [p for p in sys.path if p not in (workdir, run_cwd) or p in old_path]
+    g = Generated(workdir, package, files, stream.getvalue(), error)
+    if cache:
+        try:
+            g.cache_file = ResourceTransformer.get_cache_file(uris)
+        except Exception:  # noqa
+            g.cache_file = None
+    return g
 
 
 def strict_parser_config():
